@@ -192,6 +192,10 @@ func (E *Engine) atLoopHead(m *Machine, f *Frame, l *Loop, from, head *ssa.Basic
 		return true
 	}
 	// entry: establish
+	if m.Top.C.PrunePaths && E.probing == 0 && !E.feasibleGround(m) {
+		m.Dead = true
+		return true
+	}
 	ctx := &LoopCtx{Head: head, Spec: spec, Entered: true, EntryG: copyG(m.G)}
 	ctx.EntryHeap = copyHeap(m.Heap)
 	f.Loops[ctxKey] = ctx
@@ -426,3 +430,18 @@ func (E *Engine) feasible(m *Machine) bool {
 }
 
 func lname0(f *Frame, l *Loop) string { return fmt.Sprintf("%s#%d", FuncName(f.Fn), l.Ordinal) }
+
+// feasibleGround decides feasibility of the ground (quantifier-free) part of the path condition only: unsat there means the path is
+// infeasible (sound to drop); anything else keeps the path. Quantifier-free queries are decided in milliseconds either way.
+func (E *Engine) feasibleGround(m *Machine) bool {
+	q := E.buildQuery(ReadU, m.PC, False)
+	var kept []string
+	for _, ln := range strings.Split(q, "\n") {
+		if strings.HasPrefix(ln, "(assert") && (strings.Contains(ln, "(forall") || strings.Contains(ln, "(exists")) {
+			continue
+		}
+		kept = append(kept, ln)
+	}
+	r := Solve(strings.Join(kept, "\n"), 2, 1, true, false)
+	return r.Status != "unsat"
+}
